@@ -35,7 +35,7 @@ type c04Params struct {
 func init() {
 	core.Register(&core.Property{
 		ID: "C04",
-		Rule: "whole runs of constant, staged, ramp, gaussian, custom-tick and users triggers with concurrency c in {1,2,3,8,64,256}; bodies count themselves in and out (deferred, so also on panic) and register their handle in a live set. " +
+		Rule: "whole runs of constant, staged, ramp, gaussian, custom-tick and users triggers with concurrency c in {1,2,3,8,33,47,64,256}; bodies count themselves in and out (deferred, so also on panic) and register their handle in a live set. " +
 			"upper-bound cases keep all workers busy (ticks of 10c, sleeping/spinning bodies); lower-bound cases block every body on a rendezvous that opens only when c bodies are in flight at once. " +
 			"non-trivial = high-water mark reached c (upper) or the rendezvous opened (lower); distinct = distinct (mode, c, tick class, body, bound kind, GOMAXPROCS) classes",
 		Assumptions: []string{
@@ -50,7 +50,7 @@ func init() {
 			}
 			var cs []core.Case
 			for i := 0; i < n; i++ {
-				c := pick(r, 1, 2, 3, 8, 64, 256)
+				c := pick(r, 1, 2, 3, 8, 33, 47, 64, 256)
 				mode := pick(r, "constant", "staged", "ramp", "gaussian", "custom", "users")
 				p := c04Params{Rendezvous: i%2 == 1, RunMS: 250 + r.IntN(200)}
 				if p.Rendezvous {
@@ -197,7 +197,7 @@ func init() {
 				nr = 64
 			}
 			for i := 0; i < nr; i++ {
-				rp := c04RoundsParams{C: pick(r, 2, 3, 8, 64), Rounds: 1500, Perturb: i%2 == 0}
+				rp := c04RoundsParams{C: pick(r, 2, 3, 8, 33, 47, 64), Rounds: 1500, Perturb: i%2 == 0}
 				if i%4 >= 2 {
 					// many ticks offering less than the number of idle workers between the rounds
 					rp.C, rp.Rounds, rp.Filler = pick(r, 8, 16, 64), 60, 1500
